@@ -26,10 +26,26 @@ from vlib import cq_list, cq_bool
 
 PROBE0 = 900000            # names of objects that never enter the molecule (foreign / discarded)
 HEADER = ("From Coq Require Import List ZArith NArith PArith.\nImport ListNotations.\n"
-          "From Molli Require Import Model.MolEdit.\n"
+          "From Molli Require Import Model.MolEdit Model.MolEditCall.\n"
           "Notation P x := (x%positive) (only parsing).\n")
 
 KNOWN_FOREIGN = "C05:foreign-atom:append_bond:no-coordinate-row"
+KNOWN_STRCOORD = "C05:coords:non-numeric:add_atom:numeric-strings-accepted"
+
+# ---- how the arguments of a call are WRITTEN (Model/MolEditCall.v gives the spellings their meaning)
+# the optional charge of Molecule.add_atom: absent / a number
+Q_NONE_FORMS = {"omit": "QOmitted", "none": "(QNone false)", "kwnone": "(QNone true)"}
+Q_NUM_FORMS = {"float": ("NFloat", False), "kw": ("NFloat", True), "int": ("NInt", False), "np64": ("NNp64", False),
+               "np32": ("NNp32", True), "npint": ("NNpInt", False), "arr0": ("NArr0", False)}
+# a coordinate
+C_FORMS = {"list": "CList", "tuple": "CTuple", "arr64": "CArr64", "arr32": "CArr32", "ints": "CInts", "intarr": "CIntArr",
+           "nplist": "CNpList", "view": "CView", "col": "CCol"}
+C_FORMS_EXACT32 = ("arr32", "nplist")        # the values must be exact in single precision
+C_FORMS_INT = ("ints", "intarr")             # the values must be integers
+EL_FORMS = {"enum": "EEnum", "int": "EInt", "sym": "ESym"}
+ISO_FORMS = {"omit": "IOmitted", "kwnone": "(INone true)", "posnone": "(INone false)"}
+CONNECT_KW = (None, "label-none", "defaults")
+BONDS_HOW = ("append", "extend", "extend-list", "extend-tuple", "extend-gen")
 
 MOL2_STARTS = ["dmf_mol2", "benzene_mol2", "dummy_mol2", "fxyl_mol2", "hadd_test_mol2",
                "box_backbone_mol2", "isornitrate_mol2", "dendrobine_mol2"]
@@ -73,6 +89,9 @@ class Driver:
         self.keep = []                      # views / adopting containers that are kept alive
         self.disowned = set()               # id(atom) of atoms that the HARNESS had adopted by another container
         self.view_obs = None                # what the last view showed before / after the operation on it
+        self.pending_row = None             # row key of the coordinate object actually handed to new_atom
+        self.aliased = []                   # arguments of the last call whose later mutation by the CALLER showed in the molecule
+        self.np_mode = "idx"                # how a numpy-integer index is written in the model term (see execute)
 
     # -- naming
     def name_atom(self, a, probe=False):
@@ -104,6 +123,8 @@ class Driver:
 
     def rowtok(self, r):
         k = self.rowkey(r)
+        if k == (0.0, 0.0, 0.0):           # origin_row of Model/MolEditCall.v: the default coordinate of new_atom
+            return 0
         if k not in self.rows:
             self.rows[k] = len(self.rows) + 1
         return self.rows[k]
@@ -147,16 +168,22 @@ class Driver:
         snap["idx"], snap["gai"] = idx, gai
         c = np.asarray(m.coords)
         snap["coords_shape"] = tuple(c.shape)
+        snap["c_dtype"] = str(c.dtype)
+        snap["c_numeric"] = c.dtype.kind in "fiu"
         snap["rows"] = [self.rowkey(r) for r in c.reshape(len(c), -1).tolist()] if (c.ndim >= 1 and c.size) else []
         if self.kind == "mol":
             q = m.atomic_charges
             qa = np.asarray(q)
             snap["q_shape"] = tuple(qa.shape)
             snap["q_numeric"] = qa.dtype.kind in "fiu"
+            snap["q_dtype"] = str(qa.dtype)
             vals = []
             for x in qa.reshape(-1).tolist():
                 vals.append(float(x) if isinstance(x, (int, float)) and not isinstance(x, bool) else None)
             snap["q"] = vals
+            # every ELEMENT as the accessor hands it out (not through tolist): a number, whatever the dtype claims
+            snap["q_bad"] = [(i, repr(x)) for i, x in enumerate(qa.reshape(-1))
+                             if isinstance(x, (bool, np.bool_)) or not isinstance(x, (int, float, np.integer, np.floating))][:3]
         else:
             snap["q"] = None
         return snap
@@ -197,6 +224,8 @@ class Driver:
             return self.atom(v)
         if k == "idx":
             return int(v)
+        if k == "npidx":                   # an index as numpy hands it out (np.argmin, np.where, ...)
+            return self.np.int64(v) if v % 2 == 0 else self.np.intp(v)
         if k == "label":
             return str(v)
         return Element(int(v))
@@ -207,41 +236,191 @@ class Driver:
             return f"(ByObj {P(v)})"
         if k == "idx":
             return f"(ByIdx {Zt(v)})"
+        if k == "npidx":
+            # a numpy integer is either taken for the int it equals or refused as a designator that does not resolve;
+            # which of the two is read off the outcome (execute), the rest of the call is the model's business
+            return f"(ByIdx {Zt(v)})" if self.np_mode == "idx" else f"(ByObj {P(PROBE0 - 4)})"
         if k == "label":
             return f"(ByLabel {Nt(self.labtok(v))})"
         return f"(ByElem {Nt(v)})"
 
+    # -- argument objects in the form the op asks for
+    def mk_coord(self, vals, form):
+        """The coordinate `vals` (3 python floats) as the object handed to the library."""
+        np = self.np
+        if form == "list":
+            return [float(v) for v in vals]
+        if form == "tuple":
+            return tuple(float(v) for v in vals)
+        if form == "arr64":
+            return np.array(vals, dtype=np.float64)
+        if form == "arr32":
+            return np.array(vals, dtype=np.float32)
+        if form == "ints":
+            return [int(v) for v in vals]
+        if form == "intarr":
+            return np.array([int(v) for v in vals], dtype=np.int64)
+        if form == "nplist":
+            return [np.float64(vals[0]), np.float32(vals[1]), np.float64(vals[2])]
+        if form == "view":                 # a row of a buffer the caller owns (and goes on using)
+            buf = np.array([[9.0e9] * 3, list(vals), [8.0e8] * 3], dtype=np.float64)
+            return buf[1]
+        if form == "col":                  # a strided column of one
+            buf = np.array([[7.0e7, vals[0], 6.0e6], [7.0e7, vals[1], 6.0e6], [7.0e7, vals[2], 6.0e6]], dtype=np.float64)
+            return buf[:, 1]
+        raise RuntimeError("unknown op (coordinate form) " + str(form))
+
+    def coord_given(self, cobj):
+        """What the object says, exactly, in double precision."""
+        return [float(x) for x in self.np.asarray(cobj, dtype=self.np.float64).reshape(-1).tolist()]
+
+    def mk_charge(self, q, form):
+        np = self.np
+        if form in ("float", "kw"):
+            return float(q)
+        if form == "int":
+            return int(q)
+        if form == "np64":
+            return np.float64(q)
+        if form == "np32":
+            return np.float32(q)
+        if form == "npint":
+            return np.int64(int(q))
+        if form == "arr0":
+            return np.array(float(q))
+        raise RuntimeError("unknown op (charge form) " + str(form))
+
+    def scribble(self, obj):
+        """The caller goes on using (overwrites) an argument it passed.  Returns True when there was something to overwrite."""
+        np = self.np
+        if isinstance(obj, list) and obj:
+            obj[0] = 12345.0
+            obj[-1] = -12345.0
+            return True
+        if isinstance(obj, np.ndarray):
+            obj[...] = 12345
+            return True
+        return False
+
+    def last_row(self):
+        """(last coordinate row, last charge) as plain data, None where unreadable."""
+        try:
+            c = self.np.asarray(self.m.coords)
+            r = repr(c[-1].tolist()) if len(c) else None
+        except Exception:
+            r = None
+        try:
+            q = repr(self.np.asarray(self.m.atomic_charges)[-1].tolist()) if self.kind == "mol" and self.m.n_atoms else None
+        except Exception:
+            q = None
+        return r, q
+
+    def call_spelled(self, call, *mutable):
+        """Runs the call, then lets the caller overwrite the mutable argument objects it passed: ("coord"|"charge", obj).
+        An atom keeps the coordinate and the charge it was GIVEN, not a window onto the caller's buffer."""
+        call()
+        before = self.last_row()
+        hit = [what for what, obj in mutable if self.scribble(obj)]
+        if hit:
+            after = self.last_row()
+            if before[0] != after[0]:
+                self.aliased.append("coord")
+            if before[1] != after[1]:
+                self.aliased.append("charge")
+
     # -- executing one operation (JSON form) on the real object; returns (coq op term, raised, exception name)
     def execute(self, op):
-        from molli.chem import Atom, Bond, Element
+        from molli.chem import Atom, Bond, Element, BondType
         m = self.m
         k = op[0]
         raised, exn, term = False, None, None
         pre_atoms = {id(a) for a in m.atoms}
         pre_bonds = {id(b) for b in m.bonds}
+        pre_alist, pre_blist = [id(a) for a in m.atoms], [id(b) for b in m.bonds]
+        self.aliased, self.pending_row, self.np_mode = [], None, "idx"
+        has_np = any(isinstance(x, list) and len(x) == 2 and x[0] == "npidx" for x in op[1:])
+        labt = lambda s: Nt(self.labtok(s))
+        rs_larg = "LOmitted"
         try:
             if k == "add_atom":
-                _, e, lab, coord, q = op
+                _, e, lab, coord, q = op[:5]
+                sp = op[5] if len(op) > 5 and op[5] else {}
                 bad = isinstance(coord, str)
-                cpy = {"bad2": [1.0, 2.0], "bad33": [[1.0, 2.0, 3.0]] * 3, "bad0": []}[coord] if bad else coord
-                ctm = "None" if bad else f"(Some {Zt(self.rowtok(cpy))})"
-                term = f"(AddAtom {Nt(e)} {opt(lab, lambda s: Nt(self.labtok(s)))} {ctm} {opt(q, lambda x: Zt(int(x)))})"
-                a = Atom(Element(e), label=lab)
-                self.pending_given = (a, None if bad else self.rowkey(cpy), 0.0 if q is None else float(q))
-                if self.kind == "mol" and q is not None:
-                    m.add_atom(a, cpy, float(q))
+                cf = sp.get("c", "list")
+                if bad:
+                    cobj = {"bad2": [1.0, 2.0], "bad33": [[1.0, 2.0, 3.0]] * 3, "bad0": []}[coord]
+                    if cf == "tuple":
+                        cobj = tuple(tuple(x) if isinstance(x, list) else x for x in cobj)
+                    elif cf in ("arr64", "arr32"):
+                        cobj = self.np.array(cobj, dtype=self.np.float64 if cf == "arr64" else self.np.float32)
+                    carg, given_row = "CBad", None
                 else:
-                    m.add_atom(a, cpy)
+                    cobj = self.mk_coord(coord, cf)
+                    cgv = self.coord_given(cobj)
+                    carg, given_row = f"(CGiven {C_FORMS[cf]} {Zt(self.rowtok(cgv))})", self.rowkey(cgv)
+                # the optional charge: Structure.add_atom has none
+                qf = sp.get("q")
+                if self.kind != "mol" or (q is None and qf not in Q_NONE_FORMS):
+                    qf = "omit"
+                elif q is not None and qf not in Q_NUM_FORMS:
+                    qf = "float"
+                if self.kind != "mol":
+                    q = None
+                qarg = Q_NONE_FORMS[qf] if q is None else f"(QNum {Q_NUM_FORMS[qf][0]} {cq_bool(Q_NUM_FORMS[qf][1])} {Zt(int(q))})"
+                term = f"(elab (CallAddAtom {Nt(e)} {opt(lab, labt)} {carg} {qarg}))"
+                a = Atom(Element(e), label=lab)
+                self.pending_given = (a, given_row, 0.0 if q is None else float(q))
+                mut = [("coord", cobj)]
+                if qf == "omit":
+                    call = lambda: m.add_atom(a, cobj)
+                elif qf == "none":
+                    call = lambda: m.add_atom(a, cobj, None)
+                elif qf == "kwnone":
+                    call = lambda: m.add_atom(a, cobj, charge=None)
+                else:
+                    qobj = self.mk_charge(q, qf)
+                    mut.append(("charge", qobj))
+                    call = (lambda: m.add_atom(a, cobj, charge=qobj)) if Q_NUM_FORMS[qf][1] else (lambda: m.add_atom(a, cobj, qobj))
+                self.call_spelled(call, *mut)
             elif k == "new_atom":
-                _, e, lab, coord = op
-                term = f"(NewAtom {Nt(e)} {opt(lab, lambda s: Nt(self.labtok(s)))} {Zt(self.rowtok(coord))})"
-                m.new_atom(Element(e), coord=coord, label=lab)
+                _, e, lab, coord = op[:4]
+                sp = op[4] if len(op) > 4 and op[4] else {}
+                ef, iso, cf = sp.get("e", "enum"), sp.get("iso", "omit"), sp.get("c", "list")
+                ckw, lomit = sp.get("ckw", True), (sp.get("l") == "omit" and lab is None)
+                args = [{"enum": Element(e), "int": int(e), "sym": Element(e).symbol}[ef]]
+                kw, mut = {}, []
+                if cf != "omit" and not ckw:
+                    iso = "posnone"                  # a positional coordinate comes after a positional isotope
+                if iso == "posnone":
+                    args.append(None)
+                elif iso == "kwnone":
+                    kw["isotope"] = None
+                if cf == "omit":
+                    cgv, ncarg = [0.0, 0.0, 0.0], "NCOmitted"
+                else:
+                    cobj = self.mk_coord(coord, cf)
+                    cgv = self.coord_given(cobj)
+                    ncarg = f"(NCGiven {C_FORMS[cf]} {cq_bool(ckw)} {Zt(self.rowtok(cgv))})"
+                    mut.append(("coord", cobj))
+                    if ckw:
+                        kw["coord"] = cobj
+                    else:
+                        args.append(cobj)
+                if not lomit:
+                    kw["label"] = lab
+                self.pending_row = self.rowkey(cgv)
+                larg = "LOmitted" if lomit else f"(LGiven {opt(lab, labt)})"
+                term = f"(elab (CallNewAtom {EL_FORMS[ef]} {Nt(e)} {ISO_FORMS[iso]} {larg} {ncarg}))"
+                self.call_spelled(lambda: m.new_atom(*args, **kw), *mut)
             elif k == "del_atom":
                 term = f"(DelAtom {self.sel_term(op[1])})"
                 m.del_atom(self.sel_py(op[1]))
             elif k == "connect":
                 term = f"(Connect {self.sel_term(op[1])} {self.sel_term(op[2])})"
-                m.connect(self.sel_py(op[1]), self.sel_py(op[2]))
+                kwf = op[3] if len(op) > 3 else None
+                kw = {None: {}, "label-none": {"label": None},
+                      "defaults": {"label": None, "btype": BondType.Single, "f_order": 1}}[kwf]
+                m.connect(self.sel_py(op[1]), self.sel_py(op[2]), **kw)
             elif k == "append_bond":
                 term = f"(AppendBond {P(op[1])} {P(op[2])})"
                 m.append_bond(Bond(self.atom(op[1]), self.atom(op[2])))
@@ -250,6 +429,12 @@ class Driver:
                 bs = [Bond(self.atom(x), self.atom(y)) for x, y in op[1]]
                 if op[2] == "extend":
                     m.extend_bonds(iter(bs))
+                elif op[2] == "extend-list":
+                    m.extend_bonds(bs)
+                elif op[2] == "extend-tuple":
+                    m.extend_bonds(tuple(bs))
+                elif op[2] == "extend-gen":
+                    m.extend_bonds(b for b in bs)
                 else:
                     m.append_bonds(*bs)
             elif k == "del_bond":
@@ -261,8 +446,13 @@ class Driver:
                 term = f"(DelBond {P(self.name_atom(b.a1, probe=True))} {P(self.name_atom(b.a2, probe=True))})"
                 m.del_bond(b)
             elif k == "remove_substituent":
-                term = f"(RemoveSubst {self.sel_term(op[1])} {self.sel_term(op[2])} {opt(op[3], lambda s: Nt(self.labtok(s)))})"
-                m.remove_substituent(self.sel_py(op[1]), self.sel_py(op[2]), ap_label=op[3])
+                apomit = len(op) > 4 and op[4] == "omit" and op[3] is None
+                rs_larg = "LOmitted" if apomit else f"(LGiven {opt(op[3], labt)})"
+                term = f"(elab (CallRemoveSubst {self.sel_term(op[1])} {self.sel_term(op[2])} {rs_larg}))"
+                if apomit:
+                    m.remove_substituent(self.sel_py(op[1]), self.sel_py(op[2]))
+                else:
+                    m.remove_substituent(self.sel_py(op[1]), self.sel_py(op[2]), ap_label=op[3])
             elif k == "sub":
                 term, call = self.prepare_view(op)
                 call()
@@ -283,6 +473,18 @@ class Driver:
             if isinstance(e, RuntimeError) and "unknown op" in str(e):
                 raise
             raised, exn = True, type(e).__name__
+        if (has_np and raised and [id(a) for a in m.atoms] == pre_alist and [id(b) for b in m.bonds] == pre_blist):
+            # raised and nothing changed: the numpy integer was (or may have been) refused -- in the model term it is a
+            # designator that does not resolve.  (Raised half-way, e.g. remove_substituent(a, a) on a self-loop: the index
+            # was taken for an int, and the model has to account for what was left behind.)
+            self.np_mode = "rej"
+            if k == "del_atom":
+                term = f"(DelAtom {self.sel_term(op[1])})"
+            elif k == "connect":
+                term = f"(Connect {self.sel_term(op[1])} {self.sel_term(op[2])})"
+            elif k == "remove_substituent":
+                term = f"(elab (CallRemoveSubst {self.sel_term(op[1])} {self.sel_term(op[2])} {rs_larg}))"
+            self.np_mode = "idx"
         if k == "add_hs":
             # name the new atoms/bonds in list order, group the new hydrogens by the atom they were bonded to
             new_atoms = [a for a in m.atoms if id(a) not in pre_atoms]
@@ -435,8 +637,14 @@ def judge(drv, before, after, op, raised):
     if after["q"] is not None:
         if after["q_shape"] != (n,):
             out.append(("C05:rows:charges!=atoms", f"after {k}: {n} atoms but atomic_charges has shape {after['q_shape']}"))
-        if not after["q_numeric"] or any(x is None for x in after["q"]):
-            out.append(("C05:charges:non-numeric", f"after {k}: atomic_charges is not a numeric array ({after['q'][-3:]})"))
+        if not after["q_numeric"] or any(x is None for x in after["q"]) or after.get("q_bad"):
+            out.append(("C05:charges:non-numeric", f"after {k}: atomic_charges is not a numeric array: dtype={after.get('q_dtype')}, "
+                        f"last values {after['q'][-3:]}, elements that are not numbers (index, value): {after.get('q_bad')}"))
+    if not after.get("c_numeric", True) and n:
+        out.append(("C05:coords:non-numeric", f"after {k}: coords is not a numeric array: dtype={after.get('c_dtype')}"))
+    for what in (drv.aliased if op else []):
+        out.append((f"C05:arg-aliased:{k}:{what}", f"after {k}: the {what} of the new atom changed when the CALLER overwrote the object it "
+                    f"had passed: the atom did not keep the {what} it was given, it shares the caller's buffer"))
     # every atom keeps what it was given
     for i, a in enumerate(after["atoms"]):
         g = drv.given.get(id(a))
@@ -491,7 +699,7 @@ def judge(drv, before, after, op, raised):
                 if kind == "obj":
                     a = drv.ao.get(v)
                     return a if any(a is x for x in ats) else None
-                if kind == "idx":
+                if kind in ("idx", "npidx"):
                     return ats[v]
                 if kind == "label":
                     return next(a for a in ats if a.label == v)
@@ -786,17 +994,31 @@ def make_start(spec):
             m = ml.Structure(m)
     else:
         m = cls.load_mol2(str(getattr(ml.files, src)))
+    def qvals(base, how):
+        v = np.arange(base, base + m.n_atoms, dtype=float)
+        return {"arr": lambda: v, "list": lambda: v.tolist(), "tuple": lambda: tuple(v.tolist()),
+                "intarr": lambda: v.astype(np.int64), "intlist": lambda: [int(x) for x in v],
+                "f32": lambda: v.astype(np.float32)}[how]()
     if kind == "mol":
-        m.atomic_charges = np.arange(1001, 1001 + m.n_atoms, dtype=float)
+        m.atomic_charges = qvals(1001, spec.get("qset", "arr"))
     if spec.get("pre"):
         d0 = Driver(m, kind)
         d0.snapshot()
         for op in spec["pre"]:
             d0.execute(op)
     if spec.get("clone"):
-        m = cls(m)
-        if kind == "mol":
-            m.atomic_charges = np.arange(5001, 5001 + m.n_atoms, dtype=float)
+        cl = spec.get("cl", "plain")
+        if cl == "defaults":             # every optional argument of the constructor written out with its default
+            kw = {"n_atoms": 0, "name": None, "charge": None, "mult": None, "coords": None}
+            if kind == "mol":
+                kw["atomic_charges"] = ...
+            m = cls(m, **kw)
+        elif cl == "qctor" and kind == "mol":     # the charges handed to the constructor
+            m = cls(m, atomic_charges=qvals(5001, spec.get("qset", "arr")))
+        else:
+            m = cls(m)
+        if kind == "mol" and not (cl == "qctor"):
+            m.atomic_charges = qvals(5001, spec.get("qset", "arr"))
     return m
 
 
@@ -808,7 +1030,33 @@ def fresh_coord(drv, rng):
             return c
 
 
+def fresh_coord_for(drv, rng, form):
+    """A fresh coordinate whose values the form can carry exactly (integers / single precision)."""
+    if form in C_FORMS_INT:
+        while True:
+            c = [float(rng.randint(-60, 60)), float(rng.randint(-60, 60)), float(rng.randint(-60, 60))]
+            if drv.rowkey(c) not in drv.rows and c != [0.0, 0.0, 0.0]:
+                return c
+    if form in C_FORMS_EXACT32:
+        while True:
+            c = [rng.randint(-768, 768) / 128.0, rng.randint(-768, 768) / 128.0, rng.randint(-768, 768) / 128.0]
+            if drv.rowkey(c) not in drv.rows and c != [0.0, 0.0, 0.0]:
+                return c
+    return fresh_coord(drv, rng)
+
+
+def pick_cform(rng, p_plain=0.45):
+    return "list" if rng.random() < p_plain else rng.choice(list(C_FORMS))
+
+
 def pick_sel(drv, rng, valid=0.85, allow_idx=True):
+    s = _pick_sel(drv, rng, valid, allow_idx)
+    if s[0] == "idx" and rng.random() < 0.12:
+        return ["npidx", s[1]]            # the same index as numpy hands it out
+    return s
+
+
+def _pick_sel(drv, rng, valid=0.85, allow_idx=True):
     m = drv.m
     n = m.n_atoms
     r = rng.random()
@@ -846,25 +1094,42 @@ def gen_op(drv, rng):
     names = [drv.an[id(a)] for a in m.atoms]
     if k == "add_atom":
         lab = rng.choice([None, None, "X%d" % rng.randint(0, 3)] + [a.label for a in m.atoms[:3] if a.label])
-        coord = rng.choice(["bad2", "bad33", "bad0"]) if rng.random() < 0.12 else fresh_coord(drv, rng)
+        cf = pick_cform(rng)
+        if rng.random() < 0.12:
+            coord, cf = rng.choice(["bad2", "bad33", "bad0"]), rng.choice(["list", "list", "tuple", "arr64", "arr32"])
+        else:
+            coord = fresh_coord_for(drv, rng, cf)
         drv.fresh += 1
         q = float(2000 + drv.fresh) if (drv.kind == "mol" and rng.random() < 0.65) else None
-        return ["add_atom", rng.choice(ELEMS), lab, coord, q]
+        # every legal way of (not) saying the optional charge: left out, an explicit None (the documented "optional"
+        # value, e.g. forwarded from table.get(label)), a float, by keyword, an int, a numpy scalar, a 0-d array
+        if drv.kind != "mol":
+            qf = "omit"
+        elif q is None:
+            qf = rng.choice(["omit", "none", "kwnone"])
+        else:
+            qf = "float" if rng.random() < 0.4 else rng.choice(list(Q_NUM_FORMS))
+        return ["add_atom", rng.choice(ELEMS), lab, coord, q, {"q": qf, "c": cf}]
     if k == "new_atom":
-        return ["new_atom", rng.choice(ELEMS), rng.choice([None, "N%d" % rng.randint(0, 2)]), fresh_coord(drv, rng)]
+        lab = rng.choice([None, "N%d" % rng.randint(0, 2)])
+        sp = {"e": rng.choice(["enum", "enum", "int", "sym"]), "iso": rng.choice(["omit", "omit", "kwnone", "posnone"]),
+              "c": "omit" if rng.random() < 0.2 else pick_cform(rng), "ckw": rng.random() < 0.7,
+              "l": "omit" if (lab is None and rng.random() < 0.5) else "kw"}
+        coord = [0.0, 0.0, 0.0] if sp["c"] == "omit" else fresh_coord_for(drv, rng, sp["c"])
+        return ["new_atom", rng.choice(ELEMS), lab, coord, sp]
     if k == "del_atom":
         return ["del_atom", pick_sel(drv, rng)]
     if k == "connect":
-        return ["connect", pick_sel(drv, rng, 0.93), pick_sel(drv, rng, 0.93)]
+        return ["connect", pick_sel(drv, rng, 0.93), pick_sel(drv, rng, 0.93), rng.choice(CONNECT_KW + (None, None))]
     if k == "append_bond":
         if n == 0:
             return ["del_atom", pick_sel(drv, rng)]
         return ["append_bond", rng.choice(names), rng.choice(names)]
     if k == "append_bonds":
         if n == 0:
-            return ["append_bonds", [], rng.choice(["append", "extend"])]
+            return ["append_bonds", [], rng.choice(BONDS_HOW)]
         return ["append_bonds", [[rng.choice(names), rng.choice(names)] for _ in range(rng.randint(0, 3))],
-                rng.choice(["append", "extend"])]
+                rng.choice(BONDS_HOW)]
     if k == "del_bond":
         z = rng.random()
         if nb and z < 0.75:
@@ -894,8 +1159,9 @@ def gen_op(drv, rng):
                 s1 = ["idx", m.atoms.index(a1) - n]
             z = rng.random()
             s2 = ["obj", drv.an[id(a2)]] if z < 0.6 else ["idx", m.atoms.index(a2)]
-            return ["remove_substituent", s1, s2, rng.choice([None, "AP1"])]
-        return ["remove_substituent", pick_sel(drv, rng), pick_sel(drv, rng), None]
+            ap = rng.choice([None, "AP1"])
+            return ["remove_substituent", s1, s2, ap, "omit" if (ap is None and rng.random() < 0.5) else "kw"]
+        return ["remove_substituent", pick_sel(drv, rng), pick_sel(drv, rng), None, rng.choice(["omit", "kw"])]
     if k == "add_hs":
         if n == 0 or rng.random() < 0.2:
             return ["add_hs", None]
@@ -1055,8 +1321,8 @@ def op_key(op):
     return op[0]
 
 
-# the 20-letter alphabet of the bounded-exhaustive enumeration; letters are resolved against the current state
-ALPHABET = ["add_q", "add_noq", "add_bad", "new", "del_idx0", "del_objlast", "del_neg1", "del_label0", "del_elemlast",
+# the 21-letter alphabet of the bounded-exhaustive enumeration; letters are resolved against the current state
+ALPHABET = ["add_q", "add_noq", "add_none", "add_bad", "new", "del_idx0", "del_objlast", "del_neg1", "del_label0", "del_elemlast",
             "conn_idx", "conn_obj", "app_bond", "app_bonds", "delb_first", "delb_eq_last", "rs_obj", "rs_rev", "add_h0",
             "sub_conn", "adopt_last"]
 
@@ -1071,6 +1337,8 @@ def resolve_letter(drv, rng, L):
         return ["add_atom", 6, "X0", fresh_coord(drv, rng), float(2000 + drv.fresh) if drv.kind == "mol" else None]
     if L == "add_noq":
         return ["add_atom", 8, None, fresh_coord(drv, rng), None]
+    if L == "add_none":         # the optional charge as an EXPLICIT None, the coordinate as a tuple
+        return ["add_atom", 7, None, fresh_coord(drv, rng), None, {"q": "none", "c": "tuple"}]
     if L == "add_bad":
         return ["add_atom", 6, None, "bad2", None]
     if L == "new":
@@ -1161,7 +1429,8 @@ def run_history(spec, ops_or_gen, rng, want_views=False):
             if drv.pending_given is not None and drv.pending_given[0] is a:
                 drv.given[id(a)] = (drv.pending_given[1], drv.pending_given[2] if after["q"] is not None else None)
             elif op[0] == "new_atom":
-                drv.given[id(a)] = (drv.rowkey(op[3]), 0.0 if after["q"] is not None else None)
+                drv.given[id(a)] = (drv.pending_row if drv.pending_row is not None else drv.rowkey(op[3]),
+                                    0.0 if after["q"] is not None else None)
             else:   # created inside the library (attachment point, hydrogens): what it shows now is what it was given
                 drv.given[id(a)] = (after["rows"][j] if j < len(after["rows"]) else None,
                                     0.0 if after["q"] is not None else None)
@@ -1197,10 +1466,61 @@ def confirm_known():
             out.append((KNOWN_FOREIGN, f"dmf.append_bond(Bond(dmf.atoms[0], {what})): {m.n_atoms} atoms, coords {m.coords.shape}, "
                         f"charges {m.atomic_charges.shape}", {"kind": "known", "which": "foreign"}))
             break
+    # a coordinate of numeric STRINGS (e.g. line.split()[1:4]) passes the validation (np.array(coord, dtype=float) has
+    # shape (3,)) but the unconverted object is what np.append stores: the whole coordinate table turns into strings
+    for cls in (ml.Molecule, ml.Structure):
+        m = cls.load_mol2(str(ml.files.dmf_mol2))
+        try:
+            m.add_atom(Atom("H"), ["0.5", "0.25", "0.125"])
+        except Exception:
+            continue                 # refused: that is a repair of this finding
+        c = np.asarray(m.coords)
+        if c.dtype.kind not in "fiu":
+            out.append((KNOWN_STRCOORD, f"{cls.__name__}(dmf).add_atom(Atom('H'), ['0.5', '0.25', '0.125']) returned and coords has "
+                        f"dtype {c.dtype}: row 0 is now {c[0].tolist()!r}", {"kind": "known", "which": "strcoord"}))
+            break
     return out
 
 
 # ------------------------------------------------------------------ entry points
+QSET_FORMS = ["list", "tuple", "intarr", "intlist", "f32"]
+
+
+def spell_start(spec, rng):
+    """How the start state itself is written: the charge array as list / tuple / int / single-precision array,
+    the clone with all constructor defaults written out or with the charges handed to the constructor."""
+    if spec["kind"] == "mol" and rng.random() < 0.4:
+        spec["qset"] = rng.choice(QSET_FORMS)
+    if spec.get("clone") and rng.random() < 0.4:
+        spec["cl"] = rng.choice(["defaults", "qctor"] if spec["kind"] == "mol" else ["defaults"])
+
+
+def spell_tags(op):
+    """The spellings one executed op used (for the input distribution)."""
+    k, out = op[0], []
+    sp = None
+    if k == "add_atom":
+        sp = op[5] if len(op) > 5 and op[5] else {}
+        out.append("add_atom:coord=" + ("malformed:" if isinstance(op[3], str) else "") + sp.get("c", "list"))
+        out.append("add_atom:charge=" + (sp.get("q") or ("omit" if op[4] is None else "float")))
+    elif k == "new_atom":
+        sp = op[4] if len(op) > 4 and op[4] else {}
+        out.append("new_atom:coord=" + sp.get("c", "list") + ("" if sp.get("c") == "omit" else (":kw" if sp.get("ckw", True) else ":positional")))
+        out.append("new_atom:element=" + sp.get("e", "enum"))
+        out.append("new_atom:isotope=" + ("posnone" if (sp.get("c") != "omit" and not sp.get("ckw", True)) else sp.get("iso", "omit")))
+        out.append("new_atom:label=" + ("omit" if (sp.get("l") == "omit" and op[2] is None) else ("none" if op[2] is None else "str")))
+    elif k == "connect":
+        out.append("connect:kwds=" + str(op[3] if len(op) > 3 else None))
+    elif k == "append_bonds":
+        out.append("append_bonds:how=" + op[2])
+    elif k == "remove_substituent":
+        out.append("remove_substituent:ap_label=" + ("omit" if (len(op) > 4 and op[4] == "omit" and op[3] is None) else
+                                                     ("none" if op[3] is None else "str")))
+    if any(isinstance(x, list) and len(x) == 2 and x[0] == "npidx" for x in op[1:]):
+        out.append(k + ":index=numpy-integer")
+    return out
+
+
 def plan(ctx):
     """The list of (spec, mode, payload) of this run."""
     import molli as ml
@@ -1220,6 +1540,7 @@ def plan(ctx):
             if spec["clone"] and rng.random() < 0.5:
                 spec["pre"] = [["del_atom", ["idx", rng.randrange(2)]], ["new_atom", 6, None, [9.5, 8.25, 7.125]],
                                ["connect", ["idx", 0], ["idx", -1]]]
+        spell_start(spec, rng)
         big = spec["src"] in ("dendrobine_mol2", "isornitrate_mol2", "box_backbone_mol2")
         length = rng.randint(3, 14) if big else rng.randint(5, 40)
         jobs.append((spec, "random", length))
@@ -1232,6 +1553,7 @@ def plan(ctx):
             spec = {"src": "cdxml:" + rng.choice(cd_keys), "kind": kind, "clone": rng.random() < 0.3}
         else:
             spec = {"src": rng.choices(MOL2_STARTS, MOL2_WEIGHTS)[0], "kind": kind, "clone": rng.random() < 0.35}
+        spell_start(spec, rng)
         big = spec["src"] in ("dendrobine_mol2", "isornitrate_mol2", "box_backbone_mol2")
         jobs.append((spec, "shared", rng.randint(3, 10) if big else rng.randint(4, 25)))
     depth = 3 if ctx.thorough else 2
@@ -1247,7 +1569,7 @@ def plan(ctx):
 
 def run(ctx, rep):
     rep.rule = ("edit histories through the public API of Molecule / Structure from empty, mol2-/CDXML-loaded and cloned "
-                "molecules: random (length 5..40) and ALL words of length <= 2 (quick) / 3 (thorough) over a 20-letter "
+                "molecules: random (length 5..40) and ALL words of length <= 2 (quick) / 3 (thorough) over a 21-letter "
                 "alphabet from 5 small start states; every step is observed (atoms, bonds, coordinate rows, charges, "
                 "get_atom_index, parent, idx keyed by object identity) and replayed by the Coq model; a history is "
                 "non-trivial when at least one operation succeeded and one atom or bond was added or removed; distinct by "
@@ -1256,11 +1578,21 @@ def run(ctx, rep):
                 "dropped) and with adoptions of 1..3 atoms by another container (6 routes, kept or dropped), followed by "
                 "directed edits naming the adopted atoms; two more letters (view connect, adoption) in the word alphabet.  "
                 "Ensembles (oracle only): bond operations through Conformer views (ens[k] / iteration / slice) and on the "
-                "ensemble, 5 ensembles")
+                "ensemble, 5 ensembles.  Spelling of arguments (every family): the optional charge of add_atom omitted / "
+                "explicit None (positional, keyword) / float / keyword / int / np.float64 / np.float32 / np.int64 / 0-d array; "
+                "coordinates as list / tuple / float64 / float32 / int64 array / list of ints / list of numpy scalars / row view / "
+                "strided column view of a caller-owned buffer that the caller overwrites right after the call; new_atom with the "
+                "coordinate omitted (default row), positional or keyword, element as Element / int / symbol, isotope and label "
+                "omitted or None; connect with bond keywords written out; extend_bonds with iterator / list / tuple / generator; "
+                "remove_substituent with ap_label omitted / None / str; indices as numpy integers; start states with the charge "
+                "array set from list / tuple / int / float32 array, clones with all constructor defaults written out or the "
+                "charges handed to the constructor")
     rep.trusted += ["harness/c05.py: driver, identity->name renaming (strong references kept, so id() is never reused), "
                     "row/charge/label token maps, Coq literal emission",
                     "CPython 3.12 + numpy executing molli/chem/{atom,bond,geometry,structure,molecule}.py",
-                    "numpy array semantics (np.append / np.delete on rows) are modelled as list append / delete-nth"]
+                    "numpy array semantics (np.append / np.delete on rows) are modelled as list append / delete-nth",
+                    "harness/c05.py: construction of the argument objects in the requested form (mk_coord / mk_charge), the exact "
+                    "double-precision value of what was handed over (coord_given)"]
     rep.assumptions += ["objects handed to add_atom / append_bond(s) are newly constructed (adding the same Atom or Bond "
                         "object twice is outside the alphabet)",
                         "append_bond(s) only between atoms of the molecule (foreign atoms: recorded finding, replayed separately)",
@@ -1271,7 +1603,11 @@ def run(ctx, rep):
                         "adopted by the view: the recorded finding again); one operation per view",
                         "an atom adopted by another container legitimately reports that container (or None) as parent and Atom.idx "
                         "answers for that container: not judged for those atoms; everything else is",
-                        "ensembles: whether a bond added through a Conformer reports the ensemble or the Conformer as parent is not judged"]
+                        "ensembles: whether a bond added through a Conformer reports the ensemble or the Conformer as parent is not judged",
+                        "a numpy integer used as an atom index may be refused (ValueError, nothing changed) or taken for the int it "
+                        "equals: both are accepted, the model term is chosen from the outcome; bool is not an index",
+                        "coordinates and charges are numbers in some numeric container; numeric STRINGS as a coordinate: recorded "
+                        "finding, replayed separately, not part of the histories"]
     import warnings
     warnings.simplefilter("ignore")
     ok, out, where = vlib.build_props(ctx, rep, "C05")
@@ -1296,6 +1632,10 @@ def run(ctx, rep):
         rep.case(key=key if nontrivial else None, sample={"start": spec, "ops": done[:4]} if mode != "word" else None)
         rep.count("family:" + {"random": "own-edits", "shared": "shared-atoms", "word": "words"}[mode])
         rep.count("start:" + spec["src"].split(":")[0] + (":clone" if spec.get("clone") else "") + ":" + spec["kind"])
+        if spec["kind"] == "mol":
+            rep.count("spelling:start:charges=" + spec.get("qset", "arr"))
+        if spec.get("clone"):
+            rep.count("spelling:start:clone=" + spec.get("cl", "plain"))
         if mode == "shared":
             for o in done:
                 if o[0] == "sub":
@@ -1311,6 +1651,8 @@ def run(ctx, rep):
             rep.count(f"op:{k}:" + ("ok" if e is None else e))
             if k == "del_atom":
                 rep.count("del_atom:by-" + o[1][0])
+            for t in spell_tags(o):
+                rep.count("spelling:" + t + (":raised" if (e is not None and t.endswith("numpy-integer")) else ""))
         seen = set()
         for sig, text, step in findings:
             if sig in seen:
